@@ -99,6 +99,17 @@ add("C14", "exploration", "svmc-E1",
     "Well-formed function maps have strictly increasing entries.",
     "DESIGN.md 4/C14")
 
+add("C16", "model_checking", "svloom-E3",
+    "stateless DPOR exploration (loom) of all thread interleavings of the real SourceView under a controlled scheduler",
+    "SourceView's Mutex and AtomicUsize are switched to loom's by a cfg in a shadow package that compiles /repo's live sources. 2000 (quick) / ~50000 (thorough) configurations = text x per-thread call programs over {get_line(0), get_line(1), get_line(9), line_count, lines().collect}; 2 threads explored exhaustively (unbounded DPOR; the heaviest pairs with preemption bound 3/4), 3 and 4 threads up to preemption bound 2-3, selected 3-thread configurations unbounded. Every call's answer is compared with the single-threaded answer; panics, deadlocks and an unusable view after join are violations.",
+    "Only the instrumented Mutex/AtomicUsize are scheduling points (all other data is immutable); loom's memory model; preemption bounds as reported per family in the evidence.",
+    "DESIGN.md 4/C16")
+add("C17", "exploration", "svmc-E1",
+    "bounded-exhaustive enumeration of generated minified programs x token placements x queries against a walk-back reference model",
+    "Programs of 1..3 statements from a grammar with ASCII, non-ASCII, astral and joiner identifiers in every line-break placement, every subset of <=4 tokens on identifier starts / keywords / parentheses, every token position and successor x every pool name and non-identifiers, through five entry points; every unaligned column (mid-pair, whitespace, past end, missing line) for crash-freedom; the 128-token window with declarations at distances 118..134.",
+    "Identifier classification of the model is exact for the alphabet used; rank 127 of the window is not asserted; maps with tied positions are not asserted.",
+    "DESIGN.md 4/C17")
+
 NOT_YET = {}
 
 def main():
